@@ -5,9 +5,13 @@
    P is M or a descendant of M; subexpr_at e q = the sub-expression at position q; chain_stmts e' = the statements of
    the converted let-chain; convert_program = program.rs flattening followed by convert_qualified_names; its second
    component is the list of PrivateMemberAccess errors (empty = the pass accepts the program).
-   Restrictions: unique_fns (no two functions with the same mangled name), no_mod_let (no `let` inside a module,
-   findings F8/F17b), pub_use_safe (no `use` re-exports or overwrites a private member, finding F9), src_prog (binders
-   are plain identifiers, qualified paths have >= 2 segments — true of parsed source). *)
+   Restrictions: unique_fns (no two functions with the same mangled name), mod_lets_apart (the name of a `let`
+   written inside a module is bound nowhere else in the program: not by a second module `let`, a top-level `let` or
+   function, a `let`/`letrec` inside a body — what is left of finding F17b; a program without module `let`s,
+   no_mod_let, satisfies it), pub_use_safe (no `use` re-exports or overwrites a private member, finding F9), src_prog
+   (binders are plain identifiers, qualified paths have >= 2 segments — true of parsed source).
+   Since the repair of convert_expr's Let arm (the module context of a `let` no longer leaks into the statements
+   that follow it) programs WITH module `let`s are covered: the restriction was no_mod_let before. *)
 From Coq Require Import List String Bool Arith NArith.
 From Mimium Require Import Modules.Model Modules.Spec Modules.Resolve Modules.Program Modules.NoPubUse Modules.Mangle Modules.Witness.
 Import ListNotations.
@@ -17,7 +21,7 @@ Import ListNotations.
    the body of a declared function is rewritten to a symbol that is not a private function member of a module M,
    unless the referencing function itself lives inside M. *)
 Theorem C17_no_private_route : forall builtins prog e',
-    unique_fns prog = true -> no_mod_let prog = true -> pub_use_safe prog = true -> src_prog prog = true ->
+    unique_fns prog = true -> mod_lets_apart prog = true -> pub_use_safe prog = true -> src_prog prog = true ->
     convert_program builtins prog = (e', []) ->
     forall d, In d (fn_decls prog) ->
     exists body',
@@ -27,16 +31,56 @@ Theorem C17_no_private_route : forall builtins prog e',
                      /\ forall M n, s = M ++ [n] -> private_fn prog M n -> inside M (d_mod d).
 Proof. exact no_private_route_fn. Qed.
 
-(* the same for the initialisers of `let` statements (all at top level under no_mod_let): never a private member *)
+(* the same for the initialiser of a `let` statement written in module P (P = [] at top level): it is resolved in
+   the context of ITS OWN module, whatever module `let`s precede it *)
 Theorem C17_no_private_route_let : forall builtins prog e',
-    unique_fns prog = true -> no_mod_let prog = true -> pub_use_safe prog = true -> src_prog prog = true ->
+    unique_fns prog = true -> mod_lets_apart prog = true -> pub_use_safe prog = true -> src_prog prog = true ->
     convert_program builtins prog = (e', []) ->
     forall P n b, In (P, n, b) (let_decls prog) ->
     exists body',
       In (SLet [[n]] body') (chain_stmts e')
       /\ forall q r, subexpr_at b q = Some r -> is_ref r ->
-           exists s, subexpr_at body' q = Some (EVar s) /\ forall M m, s = M ++ [m] -> ~ private_fn prog M m.
+           exists s, subexpr_at body' q = Some (EVar s) /\ forall M m, s = M ++ [m] -> private_fn prog M m -> inside M P.
 Proof. exact no_private_route_let. Qed.
+
+(* in particular a reference in the initialiser of a TOP-LEVEL `let` never reaches a private member, also when it
+   follows a module-level `let` (the repaired half of finding F17b: C17_let_context_refuted stated the opposite) *)
+Theorem C17_no_private_route_top_let : forall builtins prog e',
+    unique_fns prog = true -> mod_lets_apart prog = true -> pub_use_safe prog = true -> src_prog prog = true ->
+    convert_program builtins prog = (e', []) ->
+    forall n b, In ([], n, b) (let_decls prog) ->
+    exists body',
+      In (SLet [[n]] body') (chain_stmts e')
+      /\ forall q r, subexpr_at b q = Some r -> is_ref r ->
+           exists s, subexpr_at body' q = Some (EVar s) /\ forall M m, s = M ++ [m] -> ~ private_fn prog M m.
+Proof. exact no_private_route_top_let. Qed.
+
+(* the repaired Let arm seen from the program, for ALL programs (no restriction): statement k of the flattened
+   program is converted starting from the empty module context whatever precedes it — a function under its own entry
+   of module_context_map, a `let` under the entry of its own pattern, no entry = the top level — and lands at index
+   k of the converted chain *)
+Theorem C17_statement_context : forall builtins prog e' errs k st,
+    convert_program builtins prog = (e', errs) ->
+    nth_error (stmts_items [] prog) k = Some st ->
+    exists locals sub' errs',
+      incl errs' errs /\
+      match st with
+      | SLetRec f x =>
+          convert_expr (mi_of prog) (known_of builtins prog)
+                       (match assoc f (module_context_map (mi_of prog)) with Some c => c | None => [] end)
+                       ([f] :: locals) x = (sub', errs')
+          /\ nth_error (chain_stmts e') k = Some (SLetRec f sub')
+      | SLet pat x =>
+          convert_expr (mi_of prog) (known_of builtins prog)
+                       (match find_pattern_module_context (mi_of prog) pat with Some c => c | None => [] end)
+                       locals x = (sub', errs')
+          /\ nth_error (chain_stmts e') k = Some (SLet pat sub')
+      end.
+Proof. exact statement_context. Qed.
+
+(* a program without any `let` inside a module satisfies mod_lets_apart *)
+Theorem C17_no_mod_let_is_apart : forall prog, no_mod_let prog = true -> mod_lets_apart prog = true.
+Proof. exact no_mod_let_apart. Qed.
 
 (* the core fact, for an arbitrary position: whatever the current module context cmc and scope stack are, a bare
    name or qualified path that convert_var / convert_qualified_var resolve without pushing an error to a private
@@ -60,7 +104,7 @@ Proof. exact no_pub_use_safe. Qed.
    function of that path relative to the current module, else the path itself (left for the type checker to
    report) — where the current module is P, or none below a local `letrec`. *)
 Theorem C17_unique : forall builtins prog e' errs,
-    no_mod_let prog = true -> src_prog prog = true -> (forall b, In b builtins -> List.length b = 1) ->
+    mod_lets_apart prog = true -> src_prog prog = true -> (forall b, In b builtins -> List.length b = 1) ->
     convert_program builtins prog = (e', errs) ->
     forall d, In d (fn_decls prog) ->
     exists body',
@@ -80,7 +124,7 @@ Proof. exact mangle_inj. Qed.
 (* Local bindings shadow: a bare name in the scope of a `let` / `letrec` / lambda binder of that name, or of a
    parameter of the function, is never rewritten (whatever aliases and wildcard imports exist). *)
 Theorem C17_local_shadows : forall builtins prog e' errs,
-    no_mod_let prog = true -> src_prog prog = true ->
+    mod_lets_apart prog = true -> src_prog prog = true ->
     convert_program builtins prog = (e', errs) ->
     forall d, In d (fn_decls prog) ->
     exists body',
@@ -145,26 +189,50 @@ Theorem C17_private_module_refuted :
     /\ unbound [] e' = [] /\ run_dsp 10 e' = Some (VNum 5).
 Proof. exact f17a_refuted. Qed.
 
-(* F17b: the initialiser of a top-level `let` that follows a module `let` is resolved inside that module *)
-Theorem C17_let_context_refuted :
+(* F17b, what is left: module `let`s are keyed by their BARE name in module_context_map, so a top-level `let` that
+   shares its name with a module `let` is resolved inside that module (mod_lets_apart is necessary) ... *)
+Theorem C17_let_name_context_refuted :
   exists prog e',
-    unique_fns prog = true /\ pub_use_safe prog = true /\ src_prog prog = true
+    unique_fns prog = true /\ pub_use_safe prog = true /\ src_prog prog = true /\ mod_lets_apart prog = false
     /\ convert_program [] prog = (e', [])
     /\ private_fn prog ["m"] "hidden"
-    /\ In ([], "b", EApp (EVar ["hidden"]) []) (let_decls prog)
-    /\ In (SLet [["b"]] (EApp (EVar ["m"; "hidden"]) [])) (chain_stmts e')
+    /\ In ([], "a", EApp (EVar ["hidden"]) []) (let_decls prog)
+    /\ In (SLet [["a"]] (EApp (EVar ["m"; "hidden"]) [])) (chain_stmts e')
     /\ unbound [] e' = [] /\ run_dsp 10 e' = Some (VNum 7).
-Proof. exact f17b_refuted. Qed.
+Proof. exact f17b_let_refuted. Qed.
+
+(* ... and so is the body of a top-level function of that name *)
+Theorem C17_fn_name_context_refuted :
+  exists prog e',
+    unique_fns prog = true /\ pub_use_safe prog = true /\ src_prog prog = true /\ mod_lets_apart prog = false
+    /\ convert_program [] prog = (e', [])
+    /\ private_fn prog ["m"] "hidden"
+    /\ In (mkDecl [] "a" false [] (EApp (EVar ["hidden"]) [])) (fn_decls prog)
+    /\ In (SLetRec ["a"] (ELam [] (EApp (EVar ["m"; "hidden"]) []))) (chain_stmts e')
+    /\ unbound [] e' = [] /\ run_dsp 10 e' = Some (VNum 7).
+Proof. exact f17b_fn_refuted. Qed.
 
 (* ---- the hypotheses are satisfiable ------------------------------------------------------------------------------- *)
+(* the former witness of F17b (mod m { fn hidden(){7.0} let a = 1.0 } let b = hidden() fn dsp(){ b }) satisfies the four
+   restrictions although it has a module `let`; `hidden` is left unresolved and the program is rejected *)
+Example C17_let_context_repaired :
+  unique_fns prog_f17b = true /\ mod_lets_apart prog_f17b = true /\ pub_use_safe prog_f17b = true /\ src_prog prog_f17b = true
+  /\ no_mod_let prog_f17b = false
+  /\ private_fn prog_f17b ["m"] "hidden"
+  /\ In ([], "b", EApp (EVar ["hidden"]) []) (let_decls prog_f17b)
+  /\ exists e', convert_program [] prog_f17b = (e', [])
+                /\ In (SLet [["b"]] (EApp (EVar ["hidden"]) [])) (chain_stmts e')
+                /\ unbound [] e' = [["hidden"]].
+Proof. exact f17b_repaired. Qed.
+
 Example C17_hypotheses_satisfiable :
-  unique_fns prog_ok = true /\ no_mod_let prog_ok = true /\ pub_use_safe prog_ok = true /\ src_prog prog_ok = true
+  unique_fns prog_ok = true /\ mod_lets_apart prog_ok = true /\ pub_use_safe prog_ok = true /\ src_prog prog_ok = true
   /\ no_pub_use prog_ok = true
   /\ private_fn prog_ok ["m"] "h"
   /\ (exists e', convert_program [] prog_ok = (e', []) /\ unbound [] e' = [] /\ run_dsp 20 e' = Some (VNum 7)).
 Proof. exact ok_satisfiable. Qed.
 
 Example C17_private_access_rejected :
-  unique_fns prog_rejected = true /\ no_mod_let prog_rejected = true /\ pub_use_safe prog_rejected = true
+  unique_fns prog_rejected = true /\ mod_lets_apart prog_rejected = true /\ pub_use_safe prog_rejected = true
   /\ snd (convert_program [] prog_rejected) = [mkErr ["m"] "h"].
 Proof. exact rejected_example. Qed.
